@@ -117,9 +117,12 @@ def ro_operations(w, S, uni):
     """(name, callback names, runner(cbs) -> answer).  Callbacks are given as a dict name -> callable or None."""
     ops = []
     n = S["bv"]
-    vs = [v for v in range(1, n + 1) if P.qdom(S, v)]
-    allq = len(vs) == n
+    # every vertex, also one that holds an edge which lost an end (the queries then raise IndexError; what they answer is
+    # not specified there, but "however the call then ends, the graph is as before" is)
+    vs = list(range(1, n + 1))
+    allq = True
     full = P.whole(S)
+    lost = not all(P.qdom(S, v) for v in vs)
     yes2 = lambda e, v: True
     yes1 = lambda e: True
     yesv = lambda v: True
@@ -132,7 +135,7 @@ def ro_operations(w, S, uni):
             ops.append((f"find_links({v},{b})", {"filterfunc": yes1},
                         lambda cb, v=v, b=b: helpers.find_links(w.o(v), w.o(b), unknown_handling=1,
                                                                 filterfunc=cb["filterfunc"])))
-    if allq and full and n:
+    if (full or lost) and n:
         travs = [("bft", breadthfirst.bft), ("dft_recursive", depthfirst.dft_recursive),
                  ("dft_iterative", depthfirst.dft_iterative)]
         gens = [("ibft", breadthfirst.ibft), ("idft_recursive", depthfirst.idft_recursive),
@@ -161,7 +164,7 @@ def ro_operations(w, S, uni):
         key = lambda v: -1 if v is None else w.n_obj(v)
         ops.append(("basic_render", {"rfunc": lab, "sort": key},
                     lambda cb: plaintext.basic_render(uni, rfunc=cb["rfunc"], sort=cb["sort"])))
-        if full and not any(k in ("T", "T2", "N") for k in S["kind"]):
+        if (full or lost) and not any(k in ("T", "T2", "N") for k in S["kind"]):
             def puml(cb):
                 o = copy.deepcopy(plantuml.PLANTUML_RENDER_OPTIONS)
                 if cb["user_render_func"] is not None:
